@@ -1,6 +1,7 @@
 package main
 
 import (
+	"runtime/pprof"
 	"encoding/json"
 	"flag"
 	"fmt"
@@ -16,7 +17,13 @@ func main() {
 	workers := flag.Int("j", 1, "workers")
 	maxPaths := flag.Int("max", 0, "max paths")
 	tmo := flag.Int("t", 10000, "solver timeout ms")
+	prof := flag.String("prof", "", "cpu profile")
 	flag.Parse()
+	if *prof != "" {
+		f, _ := os.Create(*prof)
+		pprof.StartCPUProfile(f)
+		defer pprof.StopCPUProfile()
+	}
 	t0 := time.Now()
 	e, err := sym.Load(*dir, "verif")
 	if err != nil {
